@@ -260,6 +260,11 @@ def run(prop, tier, replay=None):
     lines = []
     crashes = 0
     run_wall = 0.0
+    # Verdict order: whatever the real code did wrong (crash, hang, stall, double instance, API error, rejected step)
+    # is reported first (exit 1).  Problems of the check itself that show up AFTER the real code ran - a batch that
+    # ended unrecognisably, a trace validation that did not finish, the negative self-test, the vacuity guards - are
+    # collected here and become Broken (exit 2) only when no violation was found.
+    deferred = []
     for name, b in batches:
         todo = list(b)
         for attempt in range(1 if name == "race" else 4):
@@ -274,8 +279,12 @@ def run(prop, tier, replay=None):
                     fresh.append(sc)
                 todo = fresh
             t1 = time.time()
-            ls, out, completed = fs.run_batch(work, binp, todo, "%s%d" % (name, attempt), stall_s=stall_s,
-                                              par=64 if tier == "quick" else 128, timeout=1500)
+            try:
+                ls, out, completed = fs.run_batch(work, binp, todo, "%s%d" % (name, attempt), stall_s=stall_s,
+                                                  par=64 if tier == "quick" else 128, timeout=1500)
+            except vlib.Broken as e:
+                deferred.append("batch %s: %s" % (name, e))
+                break
             run_wall += time.time() - t1
             lines += ls
             for sig, blk in parse_races(out):
@@ -290,7 +299,8 @@ def run(prop, tier, replay=None):
                 break
             cr = parse_crash(out)
             if not cr:
-                raise vlib.Broken("supervisor harness did not complete and did not crash recognisably (batch %s):\n%s" % (name, out[-4000:]))
+                deferred.append("supervisor harness did not complete and did not crash recognisably (batch %s):\n%s" % (name, out[-4000:]))
+                break
             sig, tid, excerpt = cr
             crashes += 1
             verdict.add(sig, {"batch": name, "tree": tid, "scenario": allsc.get(tid), "output": excerpt})
@@ -324,7 +334,14 @@ def run(prop, tier, replay=None):
                                                  "dump_excerpt": dump[:6000]})
 
     # 5. TLC decides conformance of every recorded step
-    res, r = fs.validate(work, lines)
+    res, r = {}, {"distinct": 0, "generated": 0, "wall_s": 0.0}
+    if not any(ln["ev"] == "Reset" for ln in lines):
+        deferred.append("no tree was started at all")
+    else:
+        try:
+            res, r = fs.validate(work, lines)
+        except vlib.Broken as e:
+            deferred.append(str(e))
     rejected = {t: v for t, v in res.items() if v["hw"] != v["end"]}
     print("trace validation: %d trees, %d inferred states, %.1fs, %d tree(s) with a step the specification cannot explain"
           % (len(res), r["distinct"], r["wall_s"], len(rejected)))
@@ -361,14 +378,18 @@ def run(prop, tier, replay=None):
     shapes_seen = Counter(json.dumps(allsc[t]["shape"]["kids"], sort_keys=True) for t in by_tree if t in allsc)
     kinds = Counter(b["end"] for t in by_tree if t in allsc for bs in allsc[t]["scripts"].values() for b in bs)
     anysc = next(iter(allsc.values()))
-    t_ok = [t for t in by_tree if t not in rejected and any(ln["ev"] == "End" for ln in by_tree[t])]
+    t_ok = [t for t in by_tree if t in res and t not in rejected and any(ln["ev"] == "End" for ln in by_tree[t])]
     sample_trace = [{k: ln[k] for k in ("n", "ev", "a", "s")} for ln in (by_tree[t_ok[0]][:12] if t_ok else [])]
     nneg = 0
     if not replay:
         cands = [t for t in t_ok if sum(1 for ln in by_tree[t] if ln["ev"] == "Enter") >= 4 and len(by_tree[t]) < 120]
         if not cands:
-            raise vlib.Broken("no accepted trace with a restart for the negative self-test")
-        nneg = fs.selftest(work, by_tree[cands[0]])
+            deferred.append("no accepted trace with a restart for the negative self-test")
+        else:
+            try:
+                nneg = fs.selftest(work, by_tree[cands[0]])
+            except vlib.Broken as e:
+                deferred.append(str(e))
     cov = {
         "states": mc_states if not replay else max(r["distinct"], 1),
         "transitions": mc_trans if not replay else max(r["generated"], 1),
@@ -388,7 +409,11 @@ def run(prop, tier, replay=None):
         "exhaustive": False,
     }
     for need in ("restart", "cancel-observed-before-kill", "exit-ctxErr"):
-        if not replay and rc == 0 and eff.get(need, 0) == 0:
-            raise vlib.Broken("vacuous run: effect %r never observed" % need)
+        if not replay and eff.get(need, 0) == 0:
+            deferred.append("vacuous run: effect %r never observed" % need)
+    if deferred and rc == 0:
+        raise vlib.Broken(deferred[0])
+    for d in deferred:
+        print("note (not a verdict): %s" % d.splitlines()[0][:200])
     vlib.write_evidence(prop, tier, "model_checking", cov, ASSUME, time.time() - t0, getattr(verdict, "n_unknown", 0))
     return rc
